@@ -259,7 +259,9 @@ fn gen_segments(r: &mut Rng, lat: bool) -> [P2; 4] {
     }
     match r.below(9) {
         0 | 1 | 2 => [a, b, pt(r, lat), pt(r, lat)],
-        3 => { let c = lerp(&a, &b, par(r, lat)); [a, b, c, pt(r, lat)] }              // T-junction / endpoint on the other line
+        3 => { // T-junction: an end point of one segment on the line of the other — all four kinds (c on ab, d on ab, a on cd, b on cd)
+               let c = lerp(&a, &b, par(r, lat)); let o = pt(r, lat);
+               match r.below(4) { 0 => [a, b, c, o], 1 => [a, b, o, c], 2 => [c, o, a, b], _ => [o, c, a, b] } }
         4 => { let c = lerp(&a, &b, par(r, lat)); let d = lerp(&a, &b, par(r, lat)); [a, b, c, d] } // collinear
         5 => { let o = pt(r, lat); let k = par(r, lat); let c = P2::new(o.x, o.y);                  // parallel
                let d = P2::new(o.x + (b.x - a.x) * k, o.y + (b.y - a.y) * k); [a, b, c, d] }
